@@ -56,8 +56,8 @@ func genApp(c *Ctx, ec *eCase) {
 	selOf := map[string]string{}
 	for i, ch := range have {
 		selOf[ch] = fmt.Sprintf("%d", i+1)
-		if r.Intn(12) == 0 {
-			selOf[ch] = []string{"a", "go", "x1", "00", "01"}[r.Intn(5)]
+		if r.Intn(8) == 0 {
+			selOf[ch] = []string{"a", "go", "x1", "00", "01", "y", "A", "n"}[r.Intn(8)]
 		}
 	}
 	addNode := func(name string, n *nodeB) {
@@ -348,6 +348,9 @@ func adaptiveInputs(c *Ctx, ec *eCase) {
 			if r.Intn(12) == 0 {
 				// a selector followed by a blank is another (accepted) input, not that selector
 				in = append(in, []byte{' ', '\t', '\r'}[r.Intn(3)])
+			} else if up := strings.ToUpper(string(in)); up != string(in) && r.Intn(4) == 0 {
+				// ... and so is a selector in the other case
+				in = []byte(up)
 			}
 		}
 		ec.inputs = append(ec.inputs, in)
@@ -385,6 +388,12 @@ func serveOptions(c *Ctx, ec *eCase) {
 	}
 	if r.Intn(8) == 0 {
 		ec.setOpt("pflush")
+	}
+	if ec.cache > 0 && r.Intn(3) == 0 {
+		ec.setOpt("memcap")
+	}
+	if r.Intn(5) == 0 {
+		ec.setOpt("loop")
 	}
 	if ec.res == "" && (r.Intn(6) == 0 || ec.preferShadow) {
 		ec.setOpt("shadow")
@@ -424,6 +433,10 @@ func genEngineCases(c *Ctx) []string {
 				set = []uint32{6}
 			}
 			ec.firsts = []extRule{{callIdx: -1, content: []string{"", "hello", "blocked"}[c.Rng.Intn(3)], set: set}}
+			if c.Rng.Intn(3) == 0 {
+				// refuses (with an exit text) on its first call only, lets every later request through
+				ec.firsts = []extRule{{callIdx: 0, content: "you are blocked, call again later", set: []uint32{6}}, {callIdx: -1, content: ""}}
+			}
 		}
 		if c.Rng.Intn(12) == 0 {
 			// irregular application: a dangling target or a missing template
@@ -503,6 +516,11 @@ func scenDeep(c *Ctx) *eCase {
 	r := c.Rng
 	ec := newScenario(0)
 	depth := 3 + r.Intn(20)
+	tick := c.Counts["gen:scenDeep"]
+	c.Count("gen:scenDeep")
+	if tick%4 == 1 {
+		depth = []int{66, 127}[(tick/4)%2] // beyond any round number a decoder limit might use
+	}
 	name := func(k int) string {
 		if k == 0 {
 			return "root"
@@ -516,6 +534,9 @@ func scenDeep(c *Ctx) *eCase {
 		nsym := 1
 		if k == many {
 			nsym = 1 + r.Intn(20)
+			if tick%4 == 3 {
+				nsym = 70 // more symbols in one scope than a round decoder limit
+			}
 		}
 		for s := 0; s < nsym; s++ {
 			sym := fmt.Sprintf("v%d_%d", k, s)
@@ -557,7 +578,12 @@ func scenUtf8(c *Ctx) *eCase {
 		GInstr{Op: "LOAD", A: "val", N: 0}, GInstr{Op: "MAP", A: "val"}, GInstr{Op: "MOUT", A: "go", B: "1"}, GInstr{Op: "MOUT", A: "lst", B: "2"}, GInstr{Op: "HALT"},
 		GInstr{Op: "INCMP", A: "foo", B: "1"}, GInstr{Op: "INCMP", A: "lst", B: "2"})
 	ec.node("foo", w()+"\n"+w()+" "+w(), GInstr{Op: "MOUT", A: "back", B: "0"}, GInstr{Op: "HALT"}, GInstr{Op: "INCMP", A: "_", B: "0"})
-	ec.node("lst", w()+"\n{{.rows}}", GInstr{Op: "LOAD", A: "rows", N: 0}, GInstr{Op: "MAP", A: "rows"}, GInstr{Op: "MNEXT", A: "nx", B: "11"}, GInstr{Op: "MPREV", A: "pv", B: "22"},
+	// the browse entries are named by symbols that are their own (multi-byte) text, or by symbols with a label
+	nxSym, pvSym := "nx", "pv"
+	if r.Intn(2) == 0 {
+		nxSym, pvSym = []string{"Далее", "weiter»", "次へ"}[r.Intn(3)], []string{"Назад", "«zurück", "前へ"}[r.Intn(3)]
+	}
+	ec.node("lst", w()+"\n{{.rows}}", GInstr{Op: "LOAD", A: "rows", N: 0}, GInstr{Op: "MAP", A: "rows"}, GInstr{Op: "MNEXT", A: nxSym, B: "11"}, GInstr{Op: "MPREV", A: pvSym, B: "22"},
 		GInstr{Op: "MOUT", A: "back", B: "0"}, GInstr{Op: "HALT"}, GInstr{Op: "INCMP", A: ">", B: "11"}, GInstr{Op: "INCMP", A: "<", B: "22"}, GInstr{Op: "INCMP", A: "_", B: "0"})
 	ec.catchNode()
 	var rows []string
@@ -568,6 +594,9 @@ func scenUtf8(c *Ctx) *eCase {
 	ec.labels = append(ec.labels, tblEntry{nil, "go", w()}, tblEntry{nil, "back", w()}, tblEntry{nil, "nx", w()}, tblEntry{nil, "pv", w()})
 	natural := len(ec.tpls[0].text) + 10
 	ec.out = []int{0, natural - 8 + r.Intn(40), 30 + r.Intn(60), 48, 64}[r.Intn(5)]
+	if nxSym != "nx" {
+		ec.out = []int{40 + r.Intn(50), 48, 56, 64, 72}[r.Intn(5)] // multi-byte browse entries: always paged
+	}
 	ec.inputs = ins("", "1", "0", "2", "11", "11", "22", "0", "zzz")
 	return ec
 }
@@ -611,8 +640,9 @@ func scenLang(c *Ctx) *eCase {
 		GInstr{Op: "INCMP", A: "pick", B: "1"}, GInstr{Op: "INCMP", A: "show", B: "2"})
 	ec.node("pick", "Picked {{.greet}}", GInstr{Op: "LOAD", A: "setlang", N: 0}, GInstr{Op: "LOAD", A: "greet", N: 0}, GInstr{Op: "MAP", A: "greet"},
 		GInstr{Op: "MOUT", A: "back", B: "0"}, GInstr{Op: "HALT"}, GInstr{Op: "INCMP", A: "_", B: "0"})
-	ec.node("show", "Show {{.greet2}}", GInstr{Op: "LOAD", A: "greet2", N: 0}, GInstr{Op: "MAP", A: "greet2"},
+	ec.node("show", "Show {{.greet2}}", GInstr{Op: "LOAD", A: "greet2", N: 0}, GInstr{Op: "MAP", A: "greet2"}, GInstr{Op: "LOAD", A: "country", N: 0},
 		GInstr{Op: "MOUT", A: "back", B: "0"}, GInstr{Op: "HALT"}, GInstr{Op: "INCMP", A: "_", B: "0"})
+	ec.exts = append(ec.exts, extRule{sym: "country", callIdx: -1, content: []string{"no", "fra", "de", "sw"}[r.Intn(4)]}) // not a language selection: no LANG flag
 	ec.catchNode()
 	for _, l := range []string{"nor", "fra", "eng", "deu"} {
 		ec.tpls = append(ec.tpls, tblEntry{strp(l), "pick", "[" + l + "] {{.greet}}"}, tblEntry{strp(l), "root", "[" + l + "] root"}, tblEntry{strp(l), "show", "[" + l + "] {{.greet2}}"})
@@ -641,8 +671,9 @@ func scenReload(c *Ctx) *eCase {
 	r := c.Rng
 	ec := newScenario(0)
 	ec.cache = []int{16, 32, 40}[r.Intn(3)]
-	ec.node("root", "Root {{.note}}", GInstr{Op: "LOAD", A: "note", N: uint32([]int{0, 50}[r.Intn(2)])}, GInstr{Op: "MAP", A: "note"}, GInstr{Op: "MOUT", A: "go", B: "1"}, GInstr{Op: "HALT"},
-		GInstr{Op: "INCMP", A: "edit", B: "1"})
+	ec.node("root", "Root {{.note}}", GInstr{Op: "LOAD", A: "note", N: uint32([]int{0, 50}[r.Intn(2)])}, GInstr{Op: "MAP", A: "note"}, GInstr{Op: "MOUT", A: "go", B: "1"}, GInstr{Op: "MOUT", A: "bye", B: "9"}, GInstr{Op: "HALT"},
+		GInstr{Op: "INCMP", A: "edit", B: "1"}, GInstr{Op: "INCMP", A: "bye", B: "9"})
+	ec.node("bye", "Bye", GInstr{Op: "HALT"})
 	ec.node("edit", "Edit {{.name}}", GInstr{Op: "LOAD", A: "name", N: uint32([]int{0, 60}[r.Intn(2)])}, GInstr{Op: "MAP", A: "name"}, GInstr{Op: "MOUT", A: "again", B: "5"}, GInstr{Op: "MOUT", A: "back", B: "0"},
 		GInstr{Op: "HALT"}, GInstr{Op: "INCMP", A: "_", B: "0"}, GInstr{Op: "RELOAD", A: "name"}, GInstr{Op: "RELOAD", A: "note"}, GInstr{Op: "MOVE", A: "."})
 	ec.catchNode()
@@ -653,6 +684,9 @@ func scenReload(c *Ctx) *eCase {
 	}
 	ec.exts = append(ec.exts, extRule{sym: "name", callIdx: -1, content: "bob"})
 	ec.inputs = ins("", "1", "5", "5", "5", "0", "1", "5", "0", "1")
+	if r.Intn(2) == 0 {
+		ec.inputs = ins("", "1", "5", "5", "0", "9", "", "1", "5", "0")
+	}
 	return ec
 }
 
@@ -800,7 +834,18 @@ func scenSizes(c *Ctx) *eCase {
 	ec.node("big", "Big {{.blob}}", GInstr{Op: "LOAD", A: "blob", N: uint32(n)}, GInstr{Op: "MAP", A: "blob"}, GInstr{Op: "MOUT", A: "back", B: "0"}, GInstr{Op: "MOUT", A: "again", B: "5"}, GInstr{Op: "HALT"},
 		GInstr{Op: "INCMP", A: "_", B: "0"}, GInstr{Op: "RELOAD", A: "blob"}, GInstr{Op: "MOVE", A: "."})
 	ec.catchNode()
-	ec.exts = append(ec.exts, extRule{sym: "blob", callIdx: 1, content: strings.Repeat("y", n+1)}, extRule{sym: "blob", callIdx: -1, content: strings.Repeat("x", l)})
+	fill := func(k int, ch string) string { return strings.Repeat(ch, k) }
+	if tick%3 == 2 && l >= 2 {
+		// the limit counts bytes: two-byte characters, l bytes in all
+		fill = func(k int, ch string) string {
+			s := strings.Repeat("é", k/2)
+			if len(s) < k {
+				s += ch
+			}
+			return s
+		}
+	}
+	ec.exts = append(ec.exts, extRule{sym: "blob", callIdx: 1, content: fill(n+1, "y")}, extRule{sym: "blob", callIdx: -1, content: fill(l, "x")})
 	ec.inputs = ins("", "1", "5", "0", "1")
 	ec.preferAsm = tick%2 == 0 || r.Intn(2) == 0
 	return ec
@@ -867,7 +912,7 @@ func scenSameLen(c *Ctx) *eCase {
 	return ec
 }
 
-var scenarios = []func(*Ctx) *eCase{scenNewlineLast, scenDeep, scenUtf8, scenCroak, scenLang, scenReload, scenBlanks, scenWild, scenCatchRel, scenEnds, scenSizes, scenRefused, scenCatchHub, scenSameLen}
+var scenarios = []func(*Ctx) *eCase{scenNewlineLast, scenDeep, scenUtf8, scenUtf8, scenCroak, scenLang, scenReload, scenBlanks, scenWild, scenCatchRel, scenEnds, scenSizes, scenRefused, scenCatchHub, scenSameLen}
 
 func genScenarioCases(c *Ctx, n int) []string {
 	var ls []string
